@@ -18,21 +18,38 @@ RULE = (
     "shifts that change the gap size, chains), interleaved is_pumping queries on known and unknown labels; "
     "4% of the cases instead evaluate the three definitions REGENERATED from forest.py (_can_give_terms, "
     "_compute_shift, Function.preimage_gap) and the source functions on the same arguments (translator validation); "
-    "after EVERY insertion TableMethod.function and pumping_subuniverse() are compared with the model, and "
-    "with a naive Kleene iteration (oracle); each multiset is also replayed in a second random order "
-    "(order independence) and every prefix is checked for monotonicity. "
+    "after EVERY operation TableMethod.function / pumping_subuniverse() / is_pumping are compared with BOTH extracted "
+    "models (layer A = Forest/Model.v, layer B = Forest/ModelB.v with the cached _shifts, the two indices and the "
+    "incrementally maintained _preimage_count), and with a naive Kleene iteration (oracle); additionally, and only "
+    "as information, the INTERNALS of layer B are compared with the internals of the real object after every operation "
+    "and the layer-B invariant is decided on the real object (extra check 'layer-B internals'); each multiset is "
+    "replayed in ONE second random order and the FINAL function dicts are compared (sampled order independence); "
+    "consecutive prefixes of the generated order are checked for monotonicity. "
     "Non-trivial: some class ends with a finite non-zero value AND some class pumps; distinct = distinct op list."
 )
 TRUSTED = [
-    "modelled, not verified: rule_db/forest.py Function + TableMethod — hand-written Gallina model Forest/Model.v "
-    "(layer A: firing decided from the value table instead of the incrementally maintained _shifts lists) tied by "
-    "this correspondence at the level of TableMethod.function / is_pumping / pumping_subuniverse after every insertion",
+    "modelled, not verified: rule_db/forest.py Function + DefaultList + TableMethod — hand-written Gallina model "
+    "Forest/ModelB.v (layer B: the data structures of the code as they are — _rules, cached _shifts rows updated by "
+    "-1/+1/None, _rules_using_class, _rules_pumping_class, deque with duplicates, held set, cached gap, Function._value "
+    "grown lazily, raw _preimage_count maintained incrementally, the three asserts) tied to the code by this "
+    "correspondence: observables after every operation (compared), internals after every operation (informational). "
+    "Not transcribed: a DefaultList grows by trailing empty entries when merely read (stripped on both sides); "
+    "ForestRuleKey.bucket (plays no role in TableMethod); len(shifts) != len(children)",
+    "Forest/Model.v (layer A) is no longer trusted for the theorems about the incremental algorithm: it is proved to "
+    "be one schedule of layer S (C03_A_is_S), like layer B (C03_B_refines_S)",
 ]
 ASSUMPTIONS = [
-    "termination is proved for the MODEL (C03_terminates, explicit fuel bound); the real _process_queue is tied to the model by the "
-    "correspondence only, so a change of forest.py that makes it loop shows up as a harness timeout (the model, run with the proved "
-    "fuel bound, provably never answers OutOfFuel: C03_harness_never_out_of_fuel)",
-    "labels are non-negative integers (ClassDB labels); children and shifts tuples have equal length",
+    "termination is proved for the MODELS (layer A: C03_terminates with fuel_bound; layer B = the code's own schedule: "
+    "C03_B_terminates with fuel_boundS = (2*slots+R+1)*n*((n+1)*g+2)+3, slots = SUM_keys(1+arity); layer A's fuel_bound "
+    "is NOT enough for layer B: C03_B_same_fuel_bound_refuted); the real _process_queue is tied to layer B by the "
+    "correspondence only, so a change of forest.py that makes it loop shows up as a harness timeout / NonTermination "
+    "guard (the extracted models, run with the proved bounds, provably never answer OutOfFuel: "
+    "C03_harness_never_out_of_fuel, C03_B_harness_never_out_of_fuel)",
+    "labels are non-negative integers (ClassDB labels); children and shifts tuples have equal length (a kids list "
+    "cannot express unequal lengths; Rule.forest_key passes strategy.shifts() unvalidated — checked by no property)",
+    "set.pop() and the iteration order of the held set are universally quantified in the theorems (pick, ord with "
+    "perm_ok); the extracted models resolve them by position, the real run by Python's set order — the observables "
+    "provably do not depend on it, the stale internals may (reported separately)",
 ]
 
 
@@ -123,6 +140,34 @@ def encode(case):
     return case["ops"]
 
 
+def encode_with(case, res):
+    """history cases: the ops AND one snapshot of the real object's internals per op (compared by the
+    extracted layer-B model with its own internals; informational verdicts, see canon_model)"""
+    if "gen" in case:
+        return encode(case)
+    return [-8, case["ops"], res.get("ints") or []]
+
+
+# informational tallies (main process only): layer-B internals vs the real object's internals
+INT_STATS = {"ops": 0, "canon_equal": 0, "full_equal": 0, "canon_diff_examples": [], "cases": 0,
+             "real_invariant_ops": 0, "real_invariant_fail": 0, "real_invariant_examples": []}
+
+
+def canon_model(mo):
+    """model answer of a history: (-8000 layerA layerB verdicts).  The two observable lists are compared
+    with the implementation; the verdicts on the INTERNALS are tallied, never compared."""
+    if isinstance(mo, list) and len(mo) == 4 and mo[0] == -8000:
+        INT_STATS["cases"] += 1
+        for v in mo[3]:
+            INT_STATS["ops"] += 1
+            INT_STATS["canon_equal"] += int(v[0] == 1)
+            INT_STATS["full_equal"] += int(v[1] == 1)
+            if v[0] != 1 and len(INT_STATS["canon_diff_examples"]) < 3:
+                INT_STATS["canon_diff_examples"].append(v[2:] if len(v) > 2 else v)
+        return mo[:3]
+    return mo
+
+
 def _impl_translated(g):
     """the three source functions themselves, on the same arguments"""
     from comb_spec_searcher.rule_db.forest import Function, TableMethod
@@ -156,6 +201,14 @@ def fuel_bound(ops):
     return (3 * R + 1) * (n * ((n + 1) * g + 2)) + 3
 
 
+def fuel_boundS(ops):
+    """fuel_boundS of coq/theories/Forest/SchedDefs.v: the PROVED bound for layer B (the code's own re-queueing:
+    once per registered (rule, child) pair), slots = SUM_keys (1 + arity)"""
+    R, n, g, _ = _static(ops)
+    slots = sum(1 + len(o[2]) for o in ops if o[0] == 0)
+    return (2 * slots + R + 1) * (n * ((n + 1) * g + 2)) + 3
+
+
 class NonTermination(Exception):
     pass
 
@@ -170,8 +223,9 @@ def _capped_table_method():
       is the proved reason for termination (held rules + pigeonhole bound on the gap, C03_iteration_decreases);
     * the number of _increase_value/_set_infinite calls during one add_rule_key (every iteration of
       _process_queue that can prolong the loop goes through one of them) may not exceed the measure of
-      Forest/TerminationDefs.v with the weight adapted to the code's re-queueing (a rule is re-queued once per
-      occurrence of the class among its children): ((2*arity+3)*R+1)*n*((n+1)*g+2)+3 >= fuel_bound."""
+      Forest/SchedDefs.v (mu_s, proved for layer B = the code's own re-queueing: a rule is re-queued once per
+      occurrence of the class among its children and once as a rule of the class):
+      ((2*arity+3)*R+1)*n*((n+1)*g+2)+3 >= fuel_boundS >= fuel_bound (C03_B_terminates, C03_fuel_bound_le_S)."""
     global _CAPPED
     if _CAPPED is None:
         from comb_spec_searcher.rule_db.forest import TableMethod
@@ -223,7 +277,67 @@ def _guarded_tm(ops):
     return tm
 
 
-def _run_tm(ops):
+def _strip(ls):
+    ls = [list(x) for x in ls]
+    while ls and not ls[-1]:
+        ls.pop()
+    return ls
+
+
+def _snapshot(tm):
+    """the internals of the real TableMethod in the encoding of Forest/Run.v (cmp_int):
+    ( _shifts  _rules_using_class  _rules_pumping_class  _value  preimage_count  _infinity_count  _gap_size  _current_gap )"""
+    F = tm._function
+    rows = [[_sxopt(v) for v in row] for row in tm._shifts]
+    using = [sorted([r, c] for r, c in l) for l in _strip(tm._rules_using_class._list)]
+    pumping = [sorted(l) for l in _strip(tm._rules_pumping_class._list)]
+    return [rows, using, pumping, [_sxopt(v) for v in F._value], list(F.preimage_count), F._infinity_count,
+            tm._gap_size, list(tm._current_gap)]
+
+
+def _real_invariant(tm):
+    """the layer-B invariant (Forest/RefineB.v, BInv) decided on the REAL object between two operations:
+    cached shifts of every live rule = _compute_shift of the current table; _preimage_count = histogram of
+    the finite values; the two indices list exactly the live (rule, child) pairs, without duplicates;
+    queue and held set empty.  None = holds, else what fails."""
+    F = tm._function
+    vals = list(F._value)
+    fin = lambda c: c >= len(vals) or vals[c] is not None
+    for i, k in enumerate(tm._rules):
+        if vals[k.parent] is not None:
+            p = vals[k.parent]
+            want = [None if (c < len(vals) and vals[c] is None) else (vals[c] if c < len(vals) else 0) + s - p
+                    for c, s in zip(k.children, k.shifts)]
+            if list(tm._shifts[i]) != want:
+                return "cached shifts of live rule %d are %r, recomputed %r" % (i, tm._shifts[i], want)
+    hist = {}
+    for v in vals:
+        if v is not None:
+            hist[v] = hist.get(v, 0) + 1
+    pc = list(F.preimage_count)
+    if any(pc[j] != hist.get(j, 0) for j in range(len(pc))) or any(j >= len(pc) for j in hist):
+        return "preimage_count %r is not the histogram %r" % (pc, hist)
+    if F._infinity_count != sum(1 for v in vals if v is None):
+        return "infinity_count"
+    want_p, want_u = {}, {}
+    for i, k in enumerate(tm._rules):
+        if vals[k.parent] is not None:
+            want_p.setdefault(k.parent, []).append(i)
+            for j, c in enumerate(k.children):
+                if fin(c):
+                    want_u.setdefault(c, []).append((i, j))
+    got_p = {c: sorted(l) for c, l in enumerate(tm._rules_pumping_class._list) if l}
+    got_u = {c: sorted(l) for c, l in enumerate(tm._rules_using_class._list) if l}
+    if got_p != want_p:
+        return "_rules_pumping_class %r, live rules per parent %r" % (got_p, want_p)
+    if got_u != want_u:
+        return "_rules_using_class %r, live (rule, child) pairs %r" % (got_u, want_u)
+    if tm._processing_queue or tm._rule_holding_extra_terms:
+        return "queue or held set not empty between operations"
+    return None
+
+
+def _run_tm(ops, ints=None, inv=None):
     from comb_spec_searcher.typing import ForestRuleKey, RuleBucket
 
     tm = _guarded_tm(ops)
@@ -248,13 +362,18 @@ def _run_tm(ops):
             snaps.append(dict(fn))
         else:
             out.append(int(tm.is_pumping(o[1])))
+        if ints is not None:
+            ints.append(_snapshot(tm))
+        if inv is not None:
+            inv.append(_real_invariant(tm))
     return out, snaps
 
 
 def impl(case):
     if "gen" in case:
         return {"out": _impl_translated(case["gen"]), "snaps": [], "final_perm": {}}
-    out, snaps = _run_tm(case["ops"])
+    ints, inv = [], []
+    out, snaps = _run_tm(case["ops"], ints, inv)
     # the same multiset in another order
     import random
 
@@ -263,7 +382,10 @@ def impl(case):
     perm = keys[:]
     r.shuffle(perm)
     _, snaps2 = _run_tm(perm)
-    return {"out": out, "snaps": snaps, "final_perm": snaps2[-1] if snaps2 else {}}
+    bad = [(i, w) for i, w in enumerate(inv) if w]
+    # "out": the observables twice — compared with layer A and with layer B of the model
+    return {"out": [-8000, out, out], "snaps": snaps, "final_perm": snaps2[-1] if snaps2 else {}, "ints": ints,
+            "inv_ops": len(inv), "inv_bad": bad[:1]}
 
 
 INF = None
@@ -332,6 +454,12 @@ def key(case):
 
 
 def classify(case, res):
+    # (runs in the main process) informational tally: the layer-B invariant on the REAL object
+    INT_STATS["real_invariant_ops"] += res.get("inv_ops", 0)
+    if res.get("inv_bad"):
+        INT_STATS["real_invariant_fail"] += 1
+        if len(INT_STATS["real_invariant_examples"]) < 3:
+            INT_STATS["real_invariant_examples"].append({"ops": case.get("ops"), "op_index": res["inv_bad"][0][0], "what": res["inv_bad"][0][1]})
     if "gen" in case:
         return ["translated:" + ["can_give_terms", "compute_shift", "preimage_gap"][case["gen"][0]]]
     tags = []
@@ -363,36 +491,47 @@ def shrink(case):
                 yield {"ops": ops[:i] + [o2] + ops[i + 1:], "perm_seed": case["perm_seed"]}
 
 
-TECHNIQUE = "Coq proof (soundness/completeness of the table method w.r.t. the inductive least fixed point, via the gap lemma and run invariants; TERMINATION by a decreasing measure and a pigeonhole bound on the gap) + extracted-model/implementation correspondence"
+TECHNIQUE = "Coq proof over THREE executable layers of the table method: S (schedule-parametric: soundness/completeness w.r.t. the inductive least fixed point via the gap lemma and run invariants, termination by a decreasing measure and a pigeonhole bound on the gap, for EVERY re-queue list / set order / table growth), A and B (the code's data structures as they are) both proved to be schedules of S by lock-step simulation + extracted-model/implementation correspondence for A and B"
 LEVEL_TEXT = (
-    "Theorems C03_* (coq/theories/Props/C03.v, axiom-free) prove for every history of key insertions "
-    "(any arity, repeated children, shifts of either sign) and is_pumping queries and every resolution of the "
-    "arbitrary set.pop() choices: TOTAL CORRECTNESS. Termination: the model of _process_queue returns for every "
-    "fuel >= fuel_bound ops = (3R+1)*n*((n+1)*g+2)+3 (R keys, n = 1+largest label, g = largest |shift|, >= 1) "
-    "(C03_terminates), more fuel gives the same answer (C03_fuel_monotone, C03_fuel_irrelevant), so the model is a "
-    "total function run_total of (choices, history) (C03_run_total). With no fuel hypothesis (C03_total_*): reported "
-    "pumping <-> pumps in the inductive least fixed point; reported value n <-> exactly n terms derivable; the answers "
-    "depend only on the SET of inserted keys (order, grouping, multiplicity irrelevant); they only grow when keys are "
-    "added; pumping_subuniverse = keys whose classes all pump. The fuel-indexed versions (C03_sound_complete, ...) are kept. "
-    "Proof of partial correctness: run invariants (soundness, work-list covers every fireable rule, held rules sit above "
-    "the cached gap, cached gap empty or all-zero state) + the gap lemma (soundness of _set_infinite) + completeness at "
-    "exit. Proof of termination: every iteration of the while loop (C03_loop_is_pstep) preserves the loop invariant and "
-    "strictly decreases mu = (3|rules|+1)*SUM_{finite v}(1+max(0,B-v)) + 2|queue| + |held| with B = (#labels+1)*gap_size+1 "
-    "(C03_iteration_decreases, C03_process_terminates): a rule whose parent lies above the cached gap end is put on hold "
-    "instead of firing, and the cached gap starts at most at #labels*gap_size+1 by pigeonhole on preimage_gap "
-    "(C03_gap_start_bounded), so no value is increased beyond B. The model (Forest/Model.v) is tied to forest.py by "
-    "comparing function/pumping_subuniverse/is_pumping after every operation on generated histories; the extracted model "
-    "is run with fuel_bound and provably never reports OutOfFuel (C03_harness_never_out_of_fuel)."
+    "Theorems of coq/theories/Props/C03.v (axiom-free). WHAT THEY ARE ABOUT: executable Gallina models, not forest.py itself. "
+    "Layer B (Forest/ModelB.v) transcribes the incremental algorithm as the code runs it: firing from the CACHED _shifts rows "
+    "(written once by _compute_shift, then updated by -1/+1/None), re-queueing through _rules_pumping_class/_rules_using_class "
+    "(one entry per registered (rule, child) pair, tested on half-updated rows, duplicates in the deque), the purge of "
+    "_set_infinite, the incrementally maintained _preimage_count, the lazily grown _value, the three asserts. "
+    "C03_B_lockstep/C03_B_refines_S: every iteration of B's loop, with the cache and the indices forgotten, is an iteration of the "
+    "schedule-parametric layer S, and the invariant BInv (cached row = _compute_shift of the CURRENT table for every rule with a "
+    "finite parent - C03_B_cached_shifts_current; the two indices = exactly the live (rule, child) pairs without duplicates; "
+    "_preimage_count = histogram; no assert failed - C03_B_never_asserts) holds after every operation, for every resolution of "
+    "set.pop() and of the set iteration order. For EVERY schedule of layer S (any admissible re-queue list, release order, table "
+    "growth): reported pumping <-> pumps in the inductive least fixed point; reported value n <-> exactly n terms derivable; "
+    "dependence only on the SET of keys; monotone; pumping_subuniverse = keys whose classes all pump (C03_S_*); every loop iteration "
+    "decreases mu_s (C03_S_iteration_decreases, C03_S_chain_bounded). Layer A (Forest/Model.v: firing recomputed from the value "
+    "table, own re-queue order) is one schedule (C03_A_is_S); its theorems C03_sound_complete ... C03_total_* are kept. Hence "
+    "C03_B_refines_A: same history => B and A give the same function dict, pumping_subuniverse, is_pumping and value of every class "
+    "after every operation, and C03_B_sound_complete / _order_independent / _monotone / _pumping_subuniverse hold for the code's "
+    "own schedule. TERMINATION of layer B: C03_B_terminates with fuel_boundS = (2*slots+R+1)*n*((n+1)*g+2)+3 (slots = SUM (1+arity)); "
+    "the claim 'same fuel_bound as layer A' is FALSE and refuted by a witness (C03_B_same_fuel_bound_refuted: one key "
+    "0 -> (0 shift 5) x 10 needs 58 iterations, fuel_bound = 51). C03_B_harness_obs_equal: the list of answers the extracted "
+    "layer-B model gives the harness IS the list layer A gives, never OutOfFuel, never an assertion."
 )
 LEVEL_NOTE = (
-    "Termination is a theorem about the MODEL (layer A); that the real TableMethod._process_queue terminates follows only "
-    "through the correspondence (a looping change of forest.py is seen as a harness timeout, never as agreement). "
-    "The firing test and the gap search of the model are proved equal to TableMethod._can_give_terms o _compute_shift "
-    "and Function.preimage_gap as RE-TRANSLATED from forest.py on every run (C03_firing_test_is_source, "
-    "C03_gap_search_is_source), so the pigeonhole bound is about the source's own gap search. "
-    "The model is layer A of DESIGN.md (firing decided from the value table, re-queue = all fireable rules "
-    "mentioning the class); the incrementally maintained _shifts/_rules_using_class bookkeeping of the code is "
-    "covered by the correspondence only. Trusted: Coq kernel, extraction, OCaml driver, harness."
+    "The tie between forest.py and layer B is the correspondence: after every operation of every generated history the real "
+    "TableMethod's function / pumping_subuniverse / is_pumping are compared with the extracted layer-A AND layer-B models "
+    "(a disagreement is a violation), and the real object's internals (_shifts, the two indices, _value, preimage_count, "
+    "_infinity_count, _gap_size; separately the schedule-dependent stale rows and cached _current_gap) with layer B's - "
+    "informational only, reported in the evidence under 'layer-B internals', together with the invariant BInv decided on the real "
+    "object. The arithmetic of layer B IS the source's: _can_give_terms, _compute_shift, Function.preimage_gap, the hold test "
+    "of _increase_value and the gap interval / release test of _correct_gap are RE-TRANSLATED from forest.py on every run and used "
+    "by ModelB.v directly (layer A is proved to branch on the same expressions: C03_firing_test_is_source [an identity of "
+    "functions: the code evaluates that composition only in add_rule_key; that the CACHED row equals it at firing time is "
+    "C03_B_cached_shifts_current, a theorem about layer B], C03_gap_search_is_source [about the source's loop applied to the "
+    "histogram; that _preimage_count IS that histogram is part of BInv], C03_hold_test_is_source, C03_correct_gap_is_source). "
+    "The control flow of ModelB.v (loops over the indices, order of updates, queue appends) is hand-transcribed: an edit of "
+    "the +1/-1 updates in forest.py breaks no proof obligation, it shows up as a correspondence mismatch (observables) and in "
+    "the internals tally. Termination of the real _process_queue follows only through the correspondence (a looping change is "
+    "seen as a NonTermination guard / timeout, never as agreement). Order independence of the REAL code is sampled (one extra "
+    "permutation per case, final dict); RuleDBForest.is_verified / has_specification are not driven by this check (bare "
+    "TableMethod, bucket NORMAL). Trusted: Coq kernel, extraction, OCaml driver, harness."
 )
 
 
@@ -423,10 +562,29 @@ _BAD_SNIPPETS = [
 def extra_checks(ctx):
     from harness import gen_selftest
 
-    return [gen_selftest.rejects(_BAD_SNIPPETS)] + gen_selftest.checks(GEN_TARGETS, ctx.seed, ID)
+    st = INT_STATS
+    detail = (
+        "INFORMATIONAL, never a violation. ops=%d in %d histories; canonical internals equal: %d; schedule-dependent "
+        "internals equal: %d; layer-B invariant BInv decided on the REAL object after each of %d operations: "
+        "%d histories where it fails. "
+        "[canonical = live rows of _shifts, _rules_using_class, _rules_pumping_class (sorted), _value, preimage_count, "
+        "_infinity_count, _gap_size of the extracted layer-B model vs the real TableMethod after every operation; "
+        "schedule-dependent = stale rows of rules with an infinite parent, cached _current_gap (model resolves set.pop()/"
+        "set order by position)]"
+        % (st["ops"], st["cases"], st["canon_equal"], st["full_equal"],
+           st["real_invariant_ops"], st["real_invariant_fail"])
+    )
+    if st["canon_equal"] != st["ops"]:
+        detail = ("CANONICAL INTERNALS DIFFER on %d operations (observables are compared separately; if they agree this is "
+                  "not a violation: the code's bookkeeping differs from layer B's transcription). B's snapshots: %r. "
+                  % (st["ops"] - st["canon_equal"], st["canon_diff_examples"]))[:400] + detail
+    if st["real_invariant_fail"]:
+        detail = ("REAL OBJECT VIOLATES THE LAYER-B INVARIANT: %r. " % (st["real_invariant_examples"],))[:400] + detail
+    info = [("layer-B internals vs real TableMethod (informational)", True, detail)]
+    return info + [gen_selftest.rejects(_BAD_SNIPPETS)] + gen_selftest.checks(GEN_TARGETS, ctx.seed, ID)
 
 
 # translator tie (DESIGN.md 10.9): what the regenerated definitions add to the level
 LEVEL_NOTE += (
-    ' The hold test of _increase_value and the gap interval / release test of _correct_gap are also RE-TRANSLATED from forest.py on every run and the model is proved to branch on exactly those expressions (C03_hold_test_is_source, C03_correct_gap_is_source; Forest/GenBridgeGap.v); each regenerated definition is evaluated against the source on random arguments every run (harness/gen_selftest.py).'
+    ' Each regenerated definition is evaluated against the source on random arguments every run (harness/gen_selftest.py).'
 )
